@@ -328,11 +328,21 @@ def build_grown(spec, rng, theta, k, backend="lambda"):
         m.transitionMean(x, 0.3)
     rest = st[k:]
     r_ = rng.random()
+    partly_rejected = rest[-1] if rng.random() < 0.3 else None
+    if partly_rejected is not None:
+        rest = rest[:-1]
     if r_ < 0.3:
         m.state_list = list(rest)
     else:
         for s_ in rest:
             m.state_list = s_ if rng.random() < 0.6 else [s_]
+    if partly_rejected is not None:
+        # the last state arrives in a list assignment whose SECOND name is (rightly) rejected - an operator in a name: the name accepted
+        # before it is a state of the model from then on, with the default limits
+        try:
+            m.state_list = [partly_rejected, "%s-new" % partly_rejected]
+        except Exception:
+            pass
     for j in later:
         if rng.random() < 0.6:
             m.add_event(mk(spec["events"][j]))
